@@ -368,6 +368,19 @@ struct C02 {
         // (b) consumers agree on the need for a second word
         bool need_rec = di.need_expansion, need_dis = D::NeedExpansion(o);
         auto toks = D::GetTokenList(o, 0);
+        // the form a consumer reports for a word is a function of that word: an annotated call in between does not change it
+        {
+            D::ArArpSettings set{};
+            set.ar = {0x1234, 0xFEDC};
+            set.arp = {0x0421, 0x8C63, 0x5A5A, 0xFFFF};
+            (void)D::GetTokenList(o, 0, set);
+            auto again = D::GetTokenList(o, 0);
+            ++res.transitions, ++res.traces_validated;
+            if (again != toks) {
+                Fail(Fmt("form:disassembler-history:%s", di.name), Fmt("opcode %04X prints '%s', and '%s' after an annotated call for the same word", o, Join(toks).c_str(), Join(again).c_str()), rp);
+                return;
+            }
+        }
         bool renderable = Renderable(toks);
         ++res.transitions, ++res.traces_validated;
         if (need_rec != need_dis) {
